@@ -27,13 +27,18 @@ KROME_E = KROME_B + ["2,CH,E,C,10,1d4,3.0d-10", "3,H,E,H,NONE,NONE,2.0d-9"]
 
 SPECS = {
     "minimal-modifiers": dict(files={"net.kida": KIDA_LINES}, formats=["kida"], elements=["H", "C"], pseudo=[],
-                              rate_modifier={"4894": "1.0e-10", "6599": "0.0"},
+                              rate_modifier={"6599": "0.0", "4894": "1.0e-10", "7000": "2.5e-17"},      # given in no particular order
                               ode_modifier=[[("C", "-1.5e-17", ["H"])], [("H", "2.0e-17", ["C2"]), ("CH", "0.5e-17", ["C"])], [("C", "0.25e-17", ["CH"])],
                                             [("H2", "1.0e-18", ["H", "H"]), ("H", "-2.0e-18", ["H", "H"])]],
                               extra=["He"] if False else [], solver=("cvode", "cpu", "dense")),
     "uclchem-replacement-binding": dict(files={"net.ucl": UCL_LINES}, formats=["uclchem"], elements=["H", "C", "O", "CL", "E"], pseudo=["CRP", "PHOTON"],
                                         replacement={"CL": "Cl", "E": "e"}, binding={"#HCL": 4321.5}, yields={"#CO": 0.01}, grain_model="rr07x",
                                         extra=["H2"], solver=("cvode", "cpu", "sparse")),
+    # a module named under `loads` registers species data (the documented way to bring user tables into a project): its values are in
+    # force for every species the configuration's own tables do not mention
+    "loads-module-registers-data": dict(files={"net.ucl": UCL_LINES}, formats=["uclchem"], elements=["H", "C", "O", "CL", "E"], pseudo=["CRP", "PHOTON"],
+                                        replacement={"CL": "Cl", "E": "e"}, binding={"#HCL": 4321.5}, yields={}, grain_model="rr07x",
+                                        loads_module={"binding": {"#CO": 1575.25}, "yields": {"#CO": 0.0025}}, solver=("cvode", "cpu", "dense")),
     "bulk-prefix": dict(files={"net.kida": KIDA_LINES}, formats=["kida"], elements=["H", "C"], pseudo=[], bulk_prefix="&", surface_prefix="#",
                         solver=("odeint", "cpu", "rosenbrock4")),
     "allowed-cooling": dict(files={"net.kida": KIDA_LINES}, formats=["kida"], elements=["H", "C", "He", "e"], pseudo=[], allowed=["H", "H2", "C", "CH", "C2"],
@@ -68,8 +73,13 @@ def child_cli(workdir, spec):
     app.add(RenderCommand())
     solver, device, method = spec["solver"]
     q = lambda s: "'" + s + "'"
+    lm = spec.get("loads_module")
+    if lm:
+        with open(os.path.join(workdir, "userdata.py"), "w") as f:
+            f.write("from naunet.chemistrydata import update_binding_energy, update_photon_yield\n"
+                    f"update_binding_energy({lm['binding']!r})\nupdate_photon_yield({lm['yields']!r})\n")
     opts = [
-        "--name=vfproj", "--description='d'", "--loading=''",
+        "--name=vfproj", "--description='d'", "--loading=" + ("userdata.py" if lm else "''"),
         f"--surface-prefix={spec.get('surface_prefix', '#')}", f"--bulk-prefix={spec.get('bulk_prefix', '@')}",
         "--elements=" + q(",".join(spec["elements"])), "--pseudo-elements=" + q(",".join(spec["pseudo"])),
         "--element-replacement=" + q(",".join(f"{k}:{v}" for k, v in spec.get("replacement", {}).items())),
@@ -101,6 +111,9 @@ def child_api(workdir, spec):
     Species._replacement = dict(spec.get("replacement", {}))
     Species.set_known_elements(list(spec["elements"]))
     Species.set_known_pseudoelements(list(spec["pseudo"]))
+    if spec.get("loads_module"):
+        update_binding_energy(dict(spec["loads_module"]["binding"]))
+        update_photon_yield(dict(spec["loads_module"]["yields"]))
     update_binding_energy({Species(k, **kw).name: v for k, v in spec.get("binding", {}).items()})
     update_photon_yield({Species(k, **kw).name: v for k, v in spec.get("yields", {}).items()})
     net = Network(filelist=list(spec["files"]), fileformats=list(spec["formats"]), elements=list(spec["elements"]),
@@ -134,7 +147,7 @@ def child_history(workdir, spec):
             elif pre == "binding-energies":
                 from naunet.chemistrydata import update_binding_energy
                 update_binding_energy({"#CO": 777.0})
-            elif pre in ("edit-after-render", "patch-first"):
+            elif pre in ("edit-after-render", "patch-first", "edit-after-render-same-loader", "interleaved-load"):
                 pass        # handled below: the target network itself is rendered, edited and rendered again
             elif pre == "failed-krome":
                 p = os.path.join(d, "bad.krome")
@@ -153,13 +166,26 @@ def child_history(workdir, spec):
         if spec.get("elements") is not None:
             kw["elements"], kw["pseudo_elements"] = list(spec["elements"]), list(spec["pseudo"])
         late = list(spec.get("late_required", []))
-        edit = "edit-after-render" in spec.get("prelude", [])
+        same_loader = "edit-after-render-same-loader" in spec.get("prelude", [])
+        edit = "edit-after-render" in spec.get("prelude", []) or same_loader
         if late and not edit:
             kw["required_species"] = late
-        n = Network(filelist=[os.path.join(workdir, f) for f in spec["files"]], fileformats=list(spec["formats"]),
-                    grain_model=spec.get("grain_model", ""), **kw)
+        if "interleaved-load" in spec.get("prelude", []) and kw.get("elements") is not None:
+            # the network is created first, another network with the same element list but other pseudo-elements is built in between,
+            # then the files are loaded into the first one
+            from naunet.reactions.reaction import Reaction
+            from naunet.reactiontype import ReactionType
+            n = Network(grain_model=spec.get("grain_model", ""), **kw)
+            other = Network([Reaction(["H", "H"], ["H2"], alpha=1.0, reaction_type=ReactionType.GAS_TWOBODY)], elements=list(kw["elements"]), pseudo_elements=list(spec.get("interleaved_pseudo", ["X"])))
+            _ = other.species
+            for f, fmt in zip(spec["files"], spec["formats"]):
+                n.add_reaction_from_file(os.path.join(workdir, f), fmt)
+        else:
+            n = Network(filelist=[os.path.join(workdir, f) for f in spec["files"]], fileformats=list(spec["formats"]),
+                        grain_model=spec.get("grain_model", ""), **kw)
         solver, device, method = spec["solver"]
         from naunet.templateloader import TemplateLoader
+        final_loader = TemplateLoader(solver=solver, method=method, device=device)
         if "patch-first" in spec.get("prelude", []):
             # a simulation-code patch rendered from the same network object first must leave no trace in the sources rendered afterwards
             scratch = tempfile.mkdtemp(prefix="vf_patch_first_")
@@ -174,11 +200,11 @@ def child_history(workdir, spec):
             # the same description reached through an edit of the network object after it was rendered once
             scratch = tempfile.mkdtemp(prefix="vf_pre_render_")
             try:
-                quiet(TemplateLoader(solver=solver, method=method, device=device).render, "vfproj", n, path=Path(scratch))
+                quiet((final_loader if same_loader else TemplateLoader(solver=solver, method=method, device=device)).render, "vfproj", n, path=Path(scratch))
             finally:
                 shutil.rmtree(scratch, ignore_errors=True)
             n.required_species = late
-        quiet(TemplateLoader(solver=solver, method=method, device=device).render, "vfproj", n, path=Path(out))
+        quiet(final_loader.render, "vfproj", n, path=Path(out))
 
 
 def collect(root):
@@ -362,13 +388,19 @@ C17_SPECS["krome-electron"] = dict(files={"net.krome": KROME_E}, formats=["krome
 # several grain species in one group: the grain density is a sum over them, whose order must not follow set iteration
 C17_SPECS["leeds-grains"] = dict(files={"net.leeds": _leeds_grain_lines()}, formats=["leeds"], elements=None, pseudo=None, grain_model="hh93",
                                  solver=("cvode", "cpu", "sparse"), skip_preludes=("custom-elements",))
+# a KIDA network with its own tables whose cosmic-ray marker (CRP) would read as pseudo-element CR + phosphorus under another
+# network's pseudo-element list
+C17_SPECS["kida-own-tables"] = dict(files={"net.kida": KIDA_LINES + [
+    "H2         CRP                    H          H                                             4.600e-01  0.000e+00  0.000e+00 2.00e+00 0.00e+00 logn  1     10    300  1  7001 1  1",
+    "P          H                      PH                                                       1.000e-17  0.000e+00  0.000e+00 2.00e+00 0.00e+00 logn  4     10    800  3  7002 1  1"]},
+    formats=["kida"], elements=["H", "C", "O", "P", "e"], pseudo=["CRP", "CR", "Photon"], solver=("cvode", "cpu", "dense"), interleaved_pseudo=["CR", "Photon"])
 C17_SPECS["uclchem"]["files"] = {"net.ucl": [l.replace("HCL", "HCl").replace(",CL,", ",Cl,") for l in UCL_LINES]}
 
 
 def oracle_c17(tier, seed):
     viol, cases = [], 0
     seeds = ["0", "1", "7"] if tier == "quick" else ["0", "1", "2", "3", "7", "11", "42", "1234"]
-    preludes = [[], ["custom-elements"], ["krome-directives"], ["binding-energies"], ["failed-krome", "krome-directives"], ["failed-krome"], ["edit-after-render"], ["patch-first"]]
+    preludes = [[], ["custom-elements"], ["krome-directives"], ["binding-energies"], ["failed-krome", "krome-directives"], ["failed-krome"], ["edit-after-render"], ["patch-first"], ["edit-after-render-same-loader"], ["interleaved-load"]]
     for label, base in C17_SPECS.items():
         ref = None
         for hs in seeds:
@@ -401,7 +433,7 @@ def oracle_c17(tier, seed):
                 finally:
                     shutil.rmtree(tmp, ignore_errors=True)
     return {"cases": cases, "distinct": cases, "violations": viol, "samples": [{"seeds": seeds, "preludes": preludes}],
-            "bound": f"{len(C17_SPECS)} networks x {len(seeds)} hash seeds, plus 7 preludes (an Enzo patch rendered from the network first; the network itself rendered once and then edited through a setter; other network with custom element lists/prefixes, KROME directives, user binding energies, a KROME file that fails half-way) and repeated rendering",
+            "bound": f"{len(C17_SPECS)} networks x {len(seeds)} hash seeds, plus 9 preludes (an Enzo patch rendered from the network first; the network itself rendered once and then edited through a setter, with a fresh and with the same loader object; the files loaded into a network created before another network with the same elements but other pseudo-elements was built; other network with custom element lists/prefixes, KROME directives, user binding energies, a KROME file that fails half-way) and repeated rendering",
             "rule": "each (network, seed, prelude) rendering in a fresh interpreter is one case; sha256 of include/ src/ python/"}
 
 
